@@ -542,8 +542,12 @@ func ParentMain(id, tier string, seed int64, self string, instrInfo string) int 
 	ev := Evidence{PropertyID: id, Tier: tier, Seed: seed, Level: ck.Level, Coverage: cov,
 		Assumptions: ck.Assumptions, WallS: time.Since(start).Seconds(), Violations: nviol}
 	b, _ := json.MarshalIndent(ev, "", " ")
-	os.MkdirAll(filepath.Join(VerifDir, "evidence"), 0o755)
-	if err := os.WriteFile(filepath.Join(VerifDir, "evidence", id+".json"), append(b, '\n'), 0o644); err != nil {
+	evdir := filepath.Join(VerifDir, "evidence")
+	if d := os.Getenv("VERIF_EVIDENCE_DIR"); d != "" {
+		evdir = d
+	}
+	os.MkdirAll(evdir, 0o755)
+	if err := os.WriteFile(filepath.Join(evdir, id+".json"), append(b, '\n'), 0o644); err != nil {
 		fmt.Fprintf(os.Stderr, "evidence: %v\n", err)
 		return 2
 	}
@@ -572,6 +576,9 @@ func ParentMain(id, tier string, seed int64, self string, instrInfo string) int 
 
 func writeReplay(id string, v Violation) string {
 	dir := filepath.Join(VerifDir, "replays")
+	if d := os.Getenv("VERIF_EVIDENCE_DIR"); d != "" {
+		dir = filepath.Join(d, "replays")
+	}
 	os.MkdirAll(dir, 0o755)
 	h := sha256.Sum256([]byte(v.Sig))
 	path := filepath.Join(dir, id+"-"+hex.EncodeToString(h[:5])+".json")
